@@ -317,6 +317,7 @@ Ltac prim := repeat first
 Ltac lk1 :=
   match goal with
   | H : ?E ?v = Some _ |- context [?E ?v] => rewrite H
+  | H : nth_error ?q ?a = None |- context [nth_error ?q ?a] => rewrite H
   | H : forall v, v <> ?vj -> ?E v = _ |- context [?E ?w] => is_var E; rewrite (H w) by (intro; discriminate)
   end.
 
@@ -330,19 +331,36 @@ Ltac known :=
 Ltac lkstep := first [ rewrite set_lookup; cbn [N.eqb Pos.eqb] | lk1 | known ].
 Ltac run := repeat (sx; prim; repeat lkstep).
 
+(* an impossible case *)
+Ltac contra :=
+  match goal with
+  | H : Some _ = None |- _ => discriminate H
+  | H : None = Some _ |- _ => discriminate H
+  | H : true = false |- _ => discriminate H
+  | H : false = true |- _ => discriminate H
+  end.
+
 (* case analysis on what execution is stuck on *)
 Ltac dchar p :=
   match goal with
   | |- context [nth_error p ?a] =>
-    lazymatch a with context [nth_error] => fail | _ => idtac end;
+    lazymatch a with context [nth_error] => fail | context [if _ then _ else _] => fail | _ => idtac end;
     let d := fresh "d" in destruct (nth_error p a) as [d|] eqn:?
   end.
 Ltac dtest :=
   match goal with |- context [(?x =? ?k)%N] => is_var x; destruct (x =? k)%N eqn:? end.
 Ltac dleb p :=
-  match goal with |- context [(length p <=? ?J)%nat] => destruct (length p <=? J)%nat eqn:? end.
+  match goal with
+  | |- context [(length p <=? ?J)%nat] =>
+    lazymatch J with context [if _ then _ else _] => fail | _ => idtac end;
+    destruct (length p <=? J)%nat eqn:?
+  end.
 Ltac dstuff :=
-  match goal with |- context [double_bsl ?s] => destruct (double_bsl s) as [|? ?] eqn:? end.
+  match goal with
+  | |- context [double_bsl ?s] =>
+    lazymatch s with context [if _ then _ else _] => fail | _ => idtac end;
+    destruct (double_bsl s) as [|? ?] eqn:?
+  end.
 
 (* `while j < n and pat[j] != ']': j = j+1` met during execution: replace it by what it computes *)
 Ltac scan p :=
@@ -414,7 +432,7 @@ Section Translate.
     { run; finish. }
     destruct (c =? 91)%N eqn:E91; [|run; finish].
     unfold char_at. cbv zeta.
-    repeat (run; first [dchar p | dtest | scan p | dleb p | dstuff]).
-    all: run; finish.
+    repeat (run; try contra; first [dchar p | dtest | scan p | dleb p | dstuff]).
+    all: try contra; run; finish.
   Qed.
 End Translate.
